@@ -336,13 +336,13 @@ theorem serve_body_inv (q : Req) (e : Ent) (now : Nat) (r : Resp) (hlen : e.len 
   | full =>
     by_cases hm : q.method = .head
     · simp [Br.resp, simpleResp, hm, BodyS.ofPlan, BInv]
-    · simp [Br.resp, simpleResp, hm, BodyS.ofPlan, BInv, subChk_ok, bind, R.bind]
+    · simp [Br.resp, simpleResp, hm, BodyS.ofPlan, BInv, ExactLen.Ok, subChk_ok, bind, R.bind]
   | single a b inc =>
     rw [hbr] at hg
     have hab : a ≤ b := Nat.le_of_lt hg.1
     by_cases hm : q.method = .head
     · simp [Br.resp, simpleResp, hm, BodyS.ofPlan, BInv]
-    · simp [Br.resp, simpleResp, hm, BodyS.ofPlan, BInv, subChk_ok hab, bind, R.bind]
+    · simp [Br.resp, simpleResp, hm, BodyS.ofPlan, BInv, ExactLen.Ok, subChk_ok hab, bind, R.bind]
   | m206 rs inc phs total =>
     rw [hbr] at hg
     obtain ⟨hb, hp⟩ := hg
